@@ -1446,12 +1446,14 @@ def run(rep):
                     {"search_case": next(case_replay_flat(c) for c in cases if c["kind"] == "search" and len(c["files"]) > 2)}],
     })
     # report: correspondence failures first (shortest), at most 5
-    allfails.sort(key=lambda cf: (not cf[1][3], len(json.dumps(cf[1][1], default=str))))
-    seen = set()
+    # failures of the property's own oracle first, then correspondence failures; shortest first, at most 2 of a kind
+    allfails.sort(key=lambda cf: (not cf[1][3], 0 if cf[1][0].startswith("oracle") or cf[1][0].startswith("corpus") else 1,
+                                  len(json.dumps(cf[1][1], default=str))))
+    seen = {}
     for c, (name, payload, text, concrete) in allfails:
-        if name in seen and len(seen) >= 3:
+        if seen.get(name, 0) >= 2:
             continue
-        seen.add(name)
+        seen[name] = seen.get(name, 0) + 1
         payload = dict(payload)
         payload["broken"] = ("oracle of C18 (import == inlined == permuted/duplicated)" if name.startswith("oracle")
                              else "correspondence Model.start_program = handle_import_statement (carrier of every C18 theorem)")
